@@ -260,6 +260,18 @@ pub fn run(cfg: &Cfg, rep: &mut Report) {
             r.nontrivial(format!("g:{}:{}:{}", d0.insts[op].opname, inside, kx));
         }
     });
+    // (i'') boundary-value modules (hundreds of parameters / functions, storage-class pairs ...)
+    run_stage(cfg, rep, "scale", cfg.n(crate::scale::N_VARIANTS * 12, crate::scale::N_VARIANTS * 300), |idx, rng, r| {
+        let variant = [0u64, 6, 8, 0, 6, 2, 7, 5, 1][(idx % 9) as usize];
+        let (label, insts) = crate::scale::scale_module(rng, variant);
+        let rp = || crate::util::replay_ref(cfg, "scale", idx).set("label", label.clone());
+        if insts.len() > 3000 {
+            return;
+        }
+        if let Some(kx) = step_through(&insts, r, &rp, "scale") {
+            r.nontrivial(format!("scale:{}:{}", label, kx));
+        }
+    });
     // (ii) random long sequences through the binary path, every layout-fixed opcode over the run
     let d = db();
     let fixed: Vec<usize> = d.insts.iter().enumerate().filter(|(_, ri)| !matches!(spec::classify(&ri.opname), Sym::Unspecified)).map(|(i, _)| i).collect();
